@@ -52,7 +52,19 @@ def run(ctx):
     for scn, comp, tso, sbmax in live:
         C02.liveness(ctx, comp, scn, tso=tso, sbmax=sbmax, invariants=INV)
     C02.finish(ctx)
+    # the qsbr and bp flavors (their own specifications and drivers)
+    from props import qsbr_parts, bp_parts
+    ctx.extra.setdefault("flavors_covered", []).extend(["mb", "memb+sys_membarrier", "memb without sys_membarrier"])
+    if len(ctx.violations) < conc.MAXV:
+        qsbr_parts.run_c15(ctx); ctx.extra["flavors_covered"].append("qsbr")
+    if len(ctx.violations) < conc.MAXV:
+        bp_parts.run_c15(ctx); ctx.extra["flavors_covered"].append("bp (registry arena, thread exit, signals blocked during registration)")
 
 
 def replay(ctx, path):
+    from props import qsbr_parts, bp_parts
+    if qsbr_parts.is_mine(path):
+        return qsbr_parts.replay_c15(ctx, path)
+    if bp_parts.is_bp_replay(path):
+        return bp_parts.replay(ctx, path)
     C02.replay(ctx, path)
